@@ -17,6 +17,7 @@ func init() {
 }
 
 func runC13(w *World, r *Report) {
+	defer catalogStatePairs(w, r, "C13-R6")
 	r.Rule("C13-R1", "subscribe and watch before list, release after", "StartRead: Subscribe{Collection,Partition}Event and Watch{Collection,Partition} dominate GetAllCollection; StartWatch post-dominates GetAllPartition. Watch*: etcd Watch opened outside the goroutine; the event loop is entered only through the start-watch case", 8)
 	r.Rule("C13-R2", "consumer protocol", "in both event consumers the branch on which shouldReadFunc reports false returns false", 2)
 	r.Rule("C13-R3", "dedup is atomic", "replicateCollections / replicatePartitions: comma-ok lookup and insert inside one write-lock span, insert only on the not-found branch", 2)
